@@ -65,6 +65,7 @@ package revocation
 
 import (
 	"bytes"
+	"crypto/ecdsa"
 	"encoding/base64"
 	"encoding/binary"
 	"encoding/json"
@@ -97,6 +98,8 @@ type (
 		Data        signed.Message `json:"data"`
 		PKCounter   uint           `json:"pk"`
 		Accumulator *Accumulator   `json:"-"` // Accumulator contained in this instance, set by UnmarshalVerify()
+
+		verifiedWith *ecdsa.PublicKey // the key under which UnmarshalVerify() found the signature valid
 	}
 
 	// Event contains the data clients need to update to the Accumulator of the specified index,
@@ -219,9 +222,6 @@ func (acc *Accumulator) Remove(sk *gabikeys.PrivateKey, e *big.Int, parent *Even
 // UnmarshalVerify verifies the signature and unmarshals the accumulator
 // (c.f. Accumulator.Sign()).
 func (s *SignedAccumulator) UnmarshalVerify(pk *gabikeys.PublicKey) (*Accumulator, error) {
-	if s.Accumulator != nil {
-		return s.Accumulator, nil
-	}
 	msg := &Accumulator{}
 	if pk.Counter != s.PKCounter {
 		return nil, errors.New("wrong public key")
@@ -230,10 +230,14 @@ func (s *SignedAccumulator) UnmarshalVerify(pk *gabikeys.PublicKey) (*Accumulato
 		// a public key without a revocation part cannot have signed an accumulator
 		return nil, errors.New("public key does not support revocation")
 	}
+	// The memoised result only holds for the key it was obtained with
+	if s.Accumulator != nil && s.verifiedWith != nil && s.verifiedWith.Equal(pk.ECDSA) {
+		return s.Accumulator, nil
+	}
 	if err := signed.UnmarshalVerify(pk.ECDSA, s.Data, msg); err != nil {
 		return nil, err
 	}
-	s.Accumulator = msg
+	s.Accumulator, s.verifiedWith = msg, pk.ECDSA
 	return s.Accumulator, nil
 }
 
